@@ -10,7 +10,6 @@ import (
 	"github.com/hashicorp/hcl-lang/decoder/internal/schemahelper"
 	"github.com/hashicorp/hcl-lang/lang"
 	"github.com/hashicorp/hcl-lang/schema"
-	"github.com/hashicorp/hcl/v2"
 	"github.com/hashicorp/hcl/v2/hclsyntax"
 )
 
@@ -22,9 +21,11 @@ func (d *PathDecoder) SemanticTokensInFile(ctx context.Context, filename string)
 		return nil, err
 	}
 
-	body, err := d.bodyForFileAndPos(filename, f, hcl.InitialPos)
-	if err != nil {
-		return nil, err
+	// the whole file is processed: there is no position to validate (the body's
+	// range does not start at the initial position if the file begins with a block comment)
+	body, isHcl := f.Body.(*hclsyntax.Body)
+	if !isHcl {
+		return nil, &UnknownFileFormatError{Filename: filename}
 	}
 
 	if d.pathCtx.Schema == nil {
